@@ -207,6 +207,30 @@ def framePartial (tag : Nat) (segs : List Nat) (body : Bytes) : Option Bytes :=
 def LegalSegs (tag : Nat) (segs : List Nat) : Prop :=
   (segs ≠ [] → partialAllowed tag = true ∧ 9 ≤ segs.head!) ∧ ∀ k ∈ segs, k ≤ 30
 
+/-! ## packet streams -/
+
+/-- `PacketParser` as an iterator over a stream: one `deframe` after the other until the input is
+used up (`none`) or a framing cannot be read (`some e`; the iterator yields the error — or, when the
+input ends inside a header, `e = .eof`, just stops — and ends).
+Where a packet ends depends on its framing only, never on whether its body means anything: a packet
+whose type or content the library refuses is skipped as a whole.  `fuel` bounds the number of
+packets (each consumes at least its header octet). -/
+def deframeAll : Nat → Bytes → List (Hdr × Bytes) × Option FrErr
+  | 0, _ => ([], some .bad)
+  | fuel + 1, inp =>
+    match inp with
+    | [] => ([], none)
+    | _ :: _ =>
+      match deframe inp with
+      | .error e => ([], some e)
+      | .ok (h, b, rest) =>
+        let r := deframeAll fuel rest
+        ((h, b) :: r.1, r.2)
+
+/-- `s` is a framing of the packet `(h, b)`: in front of anything it is read as exactly that packet -/
+def Framed (h : Hdr) (b s : Bytes) : Prop := ∀ rest, deframe (s ++ rest) = .ok (h, b, rest)
+
+
 /-- adler-like digest used by the line protocol for long bodies: (length, s1, s2) -/
 def cksum (bs : Bytes) : Nat × Nat × Nat :=
   let (a, b) := bs.foldl (fun (p : Nat × Nat) x =>
